@@ -18,7 +18,7 @@ def suites(tier):
     q = tier == "quick"
     jobs = []
     for key in ("", "k1"):
-        cfg = dict(headers=2 if q else 3, body=3 if q else 4, cuts=(2 if key else 1) if q else 3)
+        cfg = dict(headers=2 if q else 3, body=3 if q else 4, cuts=(2 if key else 1) if q else 2)
         jobs.append(dict(id="http:key=%s" % (key or "none"), func="zzH_C16_http", cfg=cfg, cfgs=dict(key=key)))
     for i, key in enumerate(("", "k1", " ", "k1 ")):
         jobs.append(dict(id="start:key%d" % i, func="zzH_C16_start", cfg={}, cfgs={"env:FZF_API_KEY": key}, go_inline=True))
